@@ -35,6 +35,8 @@ impl SharedHistory {
 
     /// Provides access to the underlying history.
     pub fn read(&self) -> impl ops::Deref<Target = PayloadHistory> + '_ {
+        #[cfg(feature = "verif-hooks")]
+        crate::verif::point("history.read", || "");
         self.0.read().expect("Payload history lock poisoned")
     }
 
@@ -43,6 +45,8 @@ impl SharedHistory {
     /// This is private because access is only through dedicated update
     /// methods.
     fn write(&self) -> impl ops::DerefMut<Target = PayloadHistory> + '_ {
+        #[cfg(feature = "verif-hooks")]
+        crate::verif::point("history.write", || "");
         self.0.write().expect("Payload history lock poisoned")
     }
 
